@@ -115,12 +115,23 @@ func (iq *IndexQuery) FetchCollection(db *badger.DB) ([]string, error) {
 		opts.Reverse = iq.Reverse
 		it := txn.NewIterator(opts)
 		defer it.Close()
-		// In reverse, seek to the end of the keys having the prefix
-		seekKey := queryPrefix
 		if iq.Reverse {
-			seekKey = append(append(make([]byte, 0, qplen+1), queryPrefix...), 0xFF)
+			// In reverse, start at the last key having the prefix: seek to the
+			// smallest key sorting after all of them, and step past that key
+			// itself should it exist.
+			end := prefixEnd(queryPrefix)
+			if end == nil {
+				it.Rewind()
+			} else {
+				it.Seek(end)
+				if it.Valid() && bytes.Equal(it.Item().Key(), end) {
+					it.Next()
+				}
+			}
+		} else {
+			it.Seek(queryPrefix)
 		}
-		for it.Seek(seekKey); it.ValidForPrefix(queryPrefix); it.Next() {
+		for ; it.ValidForPrefix(queryPrefix); it.Next() {
 			k := it.Item().Key()
 			idx := bytes.LastIndexByte(k, idSeparator)
 			if idx < 0 {
@@ -159,4 +170,18 @@ func (iq *IndexQuery) FetchCollection(db *badger.DB) ([]string, error) {
 	}
 
 	return result, nil
+}
+
+// prefixEnd returns the smallest key that sorts after every key having the
+// prefix, or nil if there is no such key.
+func prefixEnd(prefix []byte) []byte {
+	end := append([]byte(nil), prefix...)
+	for len(end) > 0 && end[len(end)-1] == 0xFF {
+		end = end[:len(end)-1]
+	}
+	if len(end) == 0 {
+		return nil
+	}
+	end[len(end)-1]++
+	return end
 }
